@@ -317,6 +317,40 @@ def rule_counts_consumed(r, p):
                 break
             r.require(ok, key, fn=f, site=c.at, detail=why,
                       fail_detail="%s::write: %s — a character offered again after a short write is charged twice (or one that was consumed is never charged)" % (who, why))
+        # a budget counted down locally over the slice about to be forwarded (`remaining` after the scan) describes the whole
+        # forwarded slice: it may be stored only where the inner writer reported exactly that slice as consumed
+        def directly_charged(e):
+            e = strip(e)
+            sub = e[3] if e[0] == "bin" and e[1] == "Sub" else e[2][1] if e[0] == "call" and e[1].endswith("::saturating_sub") and len(e[2]) == 2 else None
+            return sub is not None and strip(sub)[0] == "call" and strip(sub)[1] == cnt.path
+        charged = {id(st) for b, i, st in stores if directly_charged(f._rvalue(st["rv"], frozenset(), 40, b))}
+        inner = [c for c in f.calls("std::io::Write::write")]
+        for b, i, st in stores:
+            v = deep_strip(f._rvalue(st["rv"], frozenset(), 40, b))
+            alts = v[1] if v[0] == "phi" else (v,)
+            countdown = any(deep_strip(a)[0] == "bin" and deep_strip(a)[1] == "Sub" and deep_strip(deep_strip(a)[3]) == ("const", "int", 1) for a in alts)
+            if not countdown or id(st) in charged:
+                continue
+            n += 1
+            key = "local-budget-stored-only-on-full-write:%s#%d" % (who, b)
+            if len(inner) != 1:
+                r.fail(key, fn=f, detail="no single inner write to relate the budget to")
+                continue
+            cuts = prefix_of_buf(inner[0].arg(1)) or []
+            cut = cuts[-1] if cuts else None
+            pay = ("field", ("as", canon(("call", "std::io::Write::write", tuple(inner[0].arg_exprs()), inner[0].block)), "Ok"), "0")
+            okg = False
+            for sb, si, al in f.conditions(b):
+                labs = {si.label(v_) for v_, _ in al}
+                if not (si.is_bool and labs in ({True}, {False})):
+                    continue
+                nf = cmp_nf(si.discr, True in labs)
+                if nf and nf[0] == "Eq":
+                    x, y = canon(nf[1]), canon(nf[2])
+                    if cut is not None and ((show(x, 9) == show(pay, 9) and y == cut) or (show(y, 9) == show(pay, 9) and x == cut)):
+                        okg = True
+            r.require(okg, key, fn=f, detail="the scanned budget is stored only on the edge where the inner writer's count equals the cut",
+                      fail_detail="%s::write stores the budget computed for the whole forwarded slice although the inner writer may have taken less: the characters of the unaccepted tail are charged now and swallowed when they are offered again" % who)
     r.floor("count-sites", n, 3)
 
 
